@@ -34,10 +34,18 @@ type Solver struct {
 	log     io.Writer
 
 	Queries, NSat, NUnsat, NUnknown int
+	Restarts                        int
+	seq                             int
+	retrying                        bool
 	Errors                          []string
 	Time                            time.Duration
 	TimeoutMs                       int
 }
+
+var faultEvery = func() int {
+	n, _ := strconv.Atoi(os.Getenv("VERIF_SOLVER_FAULT"))
+	return n
+}()
 
 func SolverArgs(backend string) (string, []string) {
 	switch backend {
@@ -185,38 +193,103 @@ func (s *Solver) sync(pc []*Term) {
 }
 
 // Check decides satisfiability of pc ∧ extra. If wantModel is non-nil and the
-// result is sat, values of those variables are returned.
+// result is sat, values of those variables are returned. The exchange with the
+// solver is framed by echo markers, so that an unexpected line (an `(error`
+// from a cancelled command, a warning) cannot shift later answers; after any
+// error the solver process is restarted and the query is retried once.
 func (s *Solver) Check(pc []*Term, extra []*Term, wantModel []*Term) (SatResult, map[string]ModelVal) {
 	t0 := time.Now()
 	defer func() { s.Time += time.Since(t0) }()
 	s.Queries++
+	res, model, hadErr := s.checkOnce(pc, extra, wantModel)
+	if hadErr {
+		s.Restarts++
+		s.restart()
+		s.retrying = true
+		res, model, hadErr = s.checkOnce(pc, extra, wantModel)
+		s.retrying = false
+		if hadErr {
+			s.restart()
+			res = Unknown
+		}
+	}
+	switch res {
+	case Sat:
+		s.NSat++
+	case Unsat:
+		s.NUnsat++
+	default:
+		s.NUnknown++
+	}
+	return res, model
+}
+
+func (s *Solver) restart() {
+	if s.cmd != nil {
+		s.in.Close()
+		s.cmd.Process.Kill()
+		s.cmd.Wait()
+		s.cmd = nil
+	}
+	s.start()
+}
+
+// readUntilMarker reads lines up to the echo marker and returns them.
+func (s *Solver) readUntilMarker(marker string) ([]string, bool) {
+	var lines []string
+	for {
+		line, err := s.out.ReadString('\n')
+		if err != nil {
+			return lines, false
+		}
+		l := strings.TrimSpace(line)
+		if l == marker || l == "\""+marker+"\"" {
+			return lines, true
+		}
+		if l != "" {
+			lines = append(lines, l)
+		}
+	}
+}
+
+func (s *Solver) checkOnce(pc []*Term, extra []*Term, wantModel []*Term) (SatResult, map[string]ModelVal, bool) {
 	s.sync(pc)
+	s.seq++
+	marker := fmt.Sprintf("@@%d", s.seq)
 	s.send("(push 1)")
 	for _, e := range extra {
 		s.send("(assert " + e.str + ")")
 	}
+	if faultEvery > 0 && s.seq%faultEvery == 0 && !s.retrying {
+		s.send("(assert (this-is-a-fault-injection))") // test hook (VERIF_SOLVER_FAULT): provokes an (error ...) line
+	}
 	s.send("(check-sat)")
-	ans := s.readLine()
-	var res SatResult
-	switch ans {
-	case "sat":
-		res = Sat
-		s.NSat++
-	case "unsat":
-		res = Unsat
-		s.NUnsat++
-	default:
-		res = Unknown
-		s.NUnknown++
-		if ans != "unknown" && ans != "timeout" {
-			s.Errors = append(s.Errors, ans)
-			if len(ans) > 0 && strings.Contains(ans, "pipe") {
-				// restart a dead solver
-				s.Close()
-				s.start()
-				return res, nil
+	s.send("(echo \"" + marker + "\")")
+	lines, ok := s.readUntilMarker(marker)
+	if !ok {
+		s.Errors = append(s.Errors, "solver pipe closed")
+		return Unknown, nil, true
+	}
+	res := Unknown
+	answered := false
+	hadErr := false
+	for _, l := range lines {
+		switch {
+		case l == "sat" && !answered:
+			res, answered = Sat, true
+		case l == "unsat" && !answered:
+			res, answered = Unsat, true
+		case (l == "unknown" || l == "timeout") && !answered:
+			res, answered = Unknown, true
+		case strings.HasPrefix(l, "(error"):
+			hadErr = true
+			if len(s.Errors) < 20 {
+				s.Errors = append(s.Errors, l)
 			}
 		}
+	}
+	if hadErr || !answered {
+		return Unknown, nil, true
 	}
 	var model map[string]ModelVal
 	if res == Sat && len(wantModel) > 0 {
@@ -228,15 +301,21 @@ func (s *Solver) Check(pc []*Term, extra []*Term, wantModel []*Term) (SatResult,
 		}
 		sb.WriteString("))")
 		s.send(sb.String())
-		txt := s.readSexp()
-		if strings.HasPrefix(txt, "(error") {
-			s.Errors = append(s.Errors, txt)
-		} else {
-			model = parseModel(txt, wantModel)
+		s.seq++
+		m2 := fmt.Sprintf("@@%d", s.seq)
+		s.send("(echo \"" + m2 + "\")")
+		vl, ok := s.readUntilMarker(m2)
+		txt := strings.Join(vl, "\n")
+		if !ok || strings.Contains(txt, "(error") {
+			if len(s.Errors) < 20 {
+				s.Errors = append(s.Errors, "get-value: "+txt)
+			}
+			return Unknown, nil, true
 		}
+		model = parseModel(txt, wantModel)
 	}
 	s.send("(pop 1)")
-	return res, model
+	return res, model, false
 }
 
 // ModelVal is a value from a solver model.
